@@ -202,7 +202,8 @@ TABLE = {
             "(and the use itself is reported with identifier and token position); lifted to every slot: mode, "
             "positional argument, keyword argument, list element, array index, scalar initialiser, loop list, metadata "
             "option; reserved names (qN, name, version, target, type) are refused for scalars and arrays with identifier "
-            "and position; float/complex/string modes are refused; complex values are refused for int/float scalars and "
+            "and position; float/complex/string modes are refused, in every statement including calls of included programs "
+            "(any include dictionary); complex values are refused for int/float scalars and "
             "array elements; wrongly typed loop values (C06); include calls with wrong arity or keywords are refused; a "
             "failing item anywhere makes the whole walk fail. Oracle: fault injection at random positions of random scripts.",
             "Lean 4 proof (induction over expressions; error propagation through folds) + fault injection", "DESIGN.md 7 (C11)",
